@@ -1772,3 +1772,41 @@ func TestProbe_iteratorProtocol(t *testing.T) {
 		}
 	}
 }
+
+func TestProbe_slashSlash(t *testing.T) {
+	root := wdoc(`<r><a x="1"><b i="1"/><c><b i="9"/></c><b i="2"/></a><b i="5"/><a><b i="3"/><a><b i="4"/></a></a></r>`)
+	set := func(ex string, c *TNode) string {
+		e, err := Compile(ex)
+		if err != nil {
+			return "error " + err.Error()
+		}
+		m := map[string]bool{}
+		it := e.Select(&TNodeNavigator{curr: c, root: root, attr: -1})
+		for k := 0; it.MoveNext() && k < 1000; k++ {
+			cur := it.Current().(*TNodeNavigator)
+			m[fmt.Sprintf("%p/%d", cur.curr, cur.attr)] = true
+		}
+		var keys []string
+		for k := range m {
+			keys = append(keys, k)
+		}
+		sort.Strings(keys)
+		return strings.Join(keys, " ")
+	}
+	pairs := [][2]string{
+		{"//b", "/descendant-or-self::node()/child::b"}, {"//b[1]", "/descendant-or-self::node()/child::b[1]"}, {"//a//b", "/descendant-or-self::node()/child::a/descendant-or-self::node()/child::b"},
+		{"//a/b[2]", "/descendant-or-self::node()/child::a/child::b[2]"}, {".//b", "self::node()/descendant-or-self::node()/child::b"}, {"a//b[@i>1]", "child::a/descendant-or-self::node()/child::b[@i>1]"},
+		{"//b[last()]", "/descendant-or-self::node()/child::b[last()]"}, {"//*[b]", "/descendant-or-self::node()/child::*[child::b]"}, {"//a[.//b[@i=4]]", "/descendant-or-self::node()/child::a[self::node()/descendant-or-self::node()/child::b[@i=4]]"},
+		{"//c//b", "/descendant-or-self::node()/child::c/descendant-or-self::node()/child::b"}, {"//@i", "/descendant-or-self::node()/attribute::i"}, {"//a/..", "/descendant-or-self::node()/child::a/parent::node()"},
+		{"//b/following-sibling::*", "/descendant-or-self::node()/child::b/following-sibling::*"}, {"//a//a//b", "/descendant-or-self::node()/child::a/descendant-or-self::node()/child::a/descendant-or-self::node()/child::b"},
+		{"//b[2]", "/descendant-or-self::node()/child::b[2]"}, {"//a[2]", "/descendant-or-self::node()/child::a[2]"}, {"//a[1]//b[1]", "/descendant-or-self::node()/child::a[1]/descendant-or-self::node()/child::b[1]"},
+		{"descendant::b", "descendant-or-self::node()/child::b"}, {"//node()", "/descendant-or-self::node()/child::node()"}, {"//text()", "/descendant-or-self::node()/child::text()"},
+	}
+	for _, c := range []*TNode{root, root.FirstChild, root.FirstChild.FirstChild} {
+		for _, p := range pairs {
+			if a, b := set(p[0], c), set(p[1], c); a != b {
+				t.Errorf("at %s: %q selects %d nodes, its expansion %q %d", c.Data, p[0], len(strings.Fields(a)), p[1], len(strings.Fields(b)))
+			}
+		}
+	}
+}
